@@ -917,8 +917,14 @@ def handleSpec (name : String) (ins ans : List String) : String :=
         | some ma, some mb =>
           if ma.length != mb.length then s!"FAIL after the hostile prefix {ma.length} messages were reported, from a cold start {mb.length}"
           else optVerdict ((ma.zip mb).findSome? (fun (x, y) =>
-            if x.msg != y.msg then some "after the hostile prefix a different message was reported than from a cold start"
-            else if x.t + rate / 4 < y.t || y.t + rate / 4 < x.t then some s!"a message was reported at {x.t} samples after the prefix, from a cold start at {y.t} (more than a quarter of a second apart)"
+            -- texts only: the vote counters of a header may differ when one run hears a burst the other loses
+            let same := match x.msg, y.msg with
+              | .som a _ _, .som b _ _ => a == b
+              | .eom, .eom => true
+              | .err, .err => true
+              | _, _ => false
+            if !same then some "after the hostile prefix a different message was reported than from a cold start"
+            else if x.t + rate < y.t || y.t + rate < x.t then some s!"a message was reported at {x.t} samples after the prefix, from a cold start at {y.t} (more than a second apart)"
             else none))
         | _, _ => "FAIL unparsable"
       | none => "FAIL unparsable"
